@@ -135,6 +135,18 @@ func (s *Store) GK(obj runtime.Object) (string, string) {
 		}
 	}
 	gvk := obj.GetObjectKind().GroupVersionKind()
+	return gvk.Group, gvk.Kind
+}
+
+// listGK returns the group and the item kind of a list object.
+func (s *Store) listGK(list client.ObjectList) (string, string) {
+	t := reflect.TypeOf(list)
+	for _, k := range s.kinds {
+		if k.t == t {
+			return k.group, k.kind
+		}
+	}
+	gvk := list.GetObjectKind().GroupVersionKind()
 	return gvk.Group, strings.TrimSuffix(gvk.Kind, "List")
 }
 
@@ -197,7 +209,7 @@ func (s *Store) mutated() {
 func (s *Store) nextRV() string { s.rv++; return strconv.Itoa(s.rv) }
 
 func gr(group, kind string) schema.GroupResource {
-	return schema.GroupResource{Group: group, Resource: strings.ToLower(kind)}
+	return schema.GroupResource{Group: group, Resource: kind}
 }
 
 var errInjected = kerrors.NewInternalError(errString("injected API server failure"))
@@ -359,7 +371,7 @@ func labelsOf(doc map[string]any) map[string]any {
 }
 
 func (s *Store) List(_ context.Context, list client.ObjectList, opts ...client.ListOption) error {
-	group, kind := s.GK(list)
+	group, kind := s.listGK(list)
 	c := Call{Verb: VerbList, Group: group, Kind: kind}
 	if f := s.fault(); f != FaultNone {
 		c.Err = true
